@@ -1,9 +1,613 @@
 /-
-  QEModel.C01 — executable model for property C01 (stub; to be filled in).
+  QEModel.C01 — DiscreteDP.solve: value iteration, policy iteration, modified policy
+  iteration (quantecon/markov/ddp.py 571-913), the linear-programming method (ddp.py 915-947,
+  markov/_ddp_linprog_simplex.py, optimize/linprog_simplex.py `solve_tableau`/`_pivot_col`) on
+  top of the state-wise "first maximum" scan (markov/utilities.py 64-86, ddp.py 370-421).
+
+  Representation.  After the constructor, every formulation of a discrete DP is
+  a list (one entry per state, in state order) of the *feasible* actions of
+  that state in increasing action order, each with its reward and its
+  transition row: `Prob α = List (List (Act α))`.
+    * product form  (R : n×m with -inf, Q : n×m×n)  -> `ofProduct`
+      (the -inf entries never win the arg-max; `bellmanProd` is the literal
+      scan over all m entries with an explicit `-inf`, and
+      `QE.C01.forms_agree_product` proves it equals the scan over the feasible ones);
+    * state-action pairs in any order (dense or sparse Q) -> `ofPairs`
+      (the re-sorting of ddp.py 350-367: pairs grouped by state, ordered by
+      action label; `forms_agree_pairs`, `forms_agree_toSaPair`).
+  The index-level CSR bookkeeping (`a_indptr`, `_generate_a_indptr`, …) is the
+  subject of C09 and is not repeated here.
+
+  Scalars are generic (core classes only).  Parameters / not modelled:
+  `np.linalg.solve` / `spsolve` is the parameter `solve` of `evalPolicy` (the driver passes the
+  exact Gauss–Jordan elimination of QEModel.MatAlg at `Rat`); the BLAS product `Q.dot(v)` is the
+  exact `dot`; the LP path contains no library call and is run by the driver both at `Rat` and at
+  `Float` (same operation order as the Numba kernels).
 -/
 import QEModel.Base
+import QEModel.MatAlg
+import QEModel.Pivot
 namespace QE.C01
+open QE
 
-def handle (_toks : List String) : String := "bad-op"
+/-- one feasible state-action pair: action label, reward, transition row -/
+structure Act (α : Type) where
+  a : Nat
+  r : α
+  q : List α
+deriving Repr, DecidableEq
+
+/-- a discrete DP after the constructor: for every state the feasible actions -/
+abbrev Prob (α : Type) := List (List (Act α))
+
+section generic
+variable {α : Type} [Zero α] [One α] [Add α] [Sub α] [Mul α] [Div α] [Neg α]
+  [LT α] [DecidableLT α]
+
+/-- `q.dot(v)` for one row -/
+def dot : List α → List α → α
+  | a :: as, b :: bs => a * b + dot as bs
+  | _, _ => 0
+
+/-- `vals[s,a] = r + beta * q.dot(v)` (ddp.py 594) -/
+def qval (β : α) (v : List α) (x : Act α) : α := x.r + β * dot x.q v
+
+/-- the loop of `_s_wise_max_argmax` (utilities.py 68-73): `m` is the best pair so
+    far, replaced only on a *strictly* larger value (first maximum wins). -/
+def scanMax {γ : Type} (f : γ → α) : γ → List γ → γ
+  | m, [] => m
+  | m, x :: xs => if f m < f x then scanMax f x xs else scanMax f m xs
+
+def dfltAct : Act α := ⟨0, 0, []⟩
+
+/-- the pair selected for one state (totalised on a state without actions, which the
+    constructor rejects) -/
+def bestAct (β : α) (v : List α) : List (Act α) → Act α
+  | [] => dfltAct
+  | x :: xs => scanMax (qval β v) x xs
+
+/-- `bellman_operator(v)` : `Tv` (ddp.py 594-599) -/
+def bellman (P : Prob α) (β : α) (v : List α) : List α :=
+  P.map fun acts => qval β v (bestAct β v acts)
+
+/-- `compute_greedy(v)` : the v-greedy policy (same scan, the action labels) -/
+def greedy (P : Prob α) (β : α) (v : List α) : List Nat :=
+  P.map fun acts => (bestAct β v acts).a
+
+/-- `s_wise_max(R)` : default `v_init` of VI / PI / LP -/
+def rmax (P : Prob α) : List α :=
+  P.map fun acts => match acts with
+    | [] => 0
+    | x :: xs => (scanMax (fun y : Act α => y.r) x xs).r
+
+/-- `_find_indices` for one state: the last pair of the state whose label is `a` -/
+def findAct (acts : List (Act α)) (a : Nat) : Act α :=
+  acts.foldl (fun cur x => if x.a = a then x else cur) dfltAct
+
+/-- `RQ_sigma(sigma)` -/
+def polActs (P : Prob α) (σ : List Nat) : List (Act α) := List.zipWith findAct P σ
+
+/-- `T_sigma(sigma)(v) = R_sigma + beta * Q_sigma.dot(v)` -/
+def tSigma (P : Prob α) (β : α) (σ : List Nat) (v : List α) : List α :=
+  (polActs P σ).map (qval β v)
+
+/-- the matrix `I - beta * Q_sigma` (ddp.py 664), row by row -/
+def policyMatrix (β : α) (acts : List (Act α)) : List (List α) :=
+  (List.range acts.length).map fun i =>
+    let q := (acts.getD i dfltAct).q
+    (List.range acts.length).map fun j => (if i = j then (1 : α) else 0) - β * q.getD j 0
+
+/-- `evaluate_policy(sigma)`: `solve (I - beta Q_sigma) R_sigma` -/
+def evalPolicy (solve : List (List α) → List α → List α) (P : Prob α) (β : α) (σ : List Nat) :
+    List α :=
+  let acts := polActs P σ
+  solve (policyMatrix β acts) (acts.map fun x => x.r)
+
+/-! ### norms and stopping rules -/
+
+def absA (x : α) : α := if x < 0 then -x else x
+def maxA (a b : α) : α := if a < b then b else a
+def minA (a b : α) : α := if b < a then b else a
+
+/-- `np.abs(new_v - v).max()` -/
+def supDist (v w : List α) : α := (List.zipWith (fun a b => absA (a - b)) v w).foldl maxA 0
+
+def vmax : List α → α
+  | [] => 0
+  | x :: xs => xs.foldl maxA x
+def vmin : List α → α
+  | [] => 0
+  | x :: xs => xs.foldl minA x
+
+/-- `span(z) = z.max() - z.min()` -/
+def span (z : List α) : α := vmax z - vmin z
+/-- `midrange(z) = (z.min() + z.max()) / 2` -/
+def midrange (z : List α) : α := (vmin z + vmax z) / (1 + 1)
+
+/-- a tolerance: no test (`tol=None`), `np.inf` (β = 0), or a finite number -/
+inductive Tol (α : Type) where
+  | noTest : Tol α
+  | inf : Tol α
+  | fin (t : α) : Tol α
+
+/-- `tol is not None and d < tol` -/
+def Tol.passes : Tol α → α → Bool
+  | .noTest, _ => false
+  | .inf, _ => true
+  | .fin t, d => decide (d < t)
+
+/-- `operator_iteration(T, v, max_iter, tol)` (ddp.py 705-714): returns the last
+    iterate, the number of applications of `T`, and whether the loop was left
+    through the tolerance `break`. -/
+def opIter (T : List α → List α) (tol : Tol α) : Nat → List α → Nat → List α × Nat × Bool
+  | 0, v, cnt => (v, cnt, false)
+  | fuel + 1, v, cnt =>
+    let nv := T v
+    if tol.passes (supDist nv v) then (nv, cnt + 1, true)
+    else opIter T tol fuel nv (cnt + 1)
+
+/-- `tol = epsilon * (1-beta) / (2*beta)`, `inf` on `ZeroDivisionError` (β = 0) -/
+def viTol (β ε : α) : Tol α :=
+  if 0 < β then .fin (ε * (1 - β) / ((1 + 1) * β)) else .inf
+
+/-- `tol = epsilon * (1-beta) / beta`, `inf` when β = 0 -/
+def mpiTol (β ε : α) : Tol α :=
+  if 0 < β then .fin (ε * (1 - β) / β) else .inf
+
+/-- result of a solve: `v`, `sigma`, `num_iter`, and whether the method stopped by its
+    own criterion (rather than by exhausting `max_iter`) -/
+structure Res (α : Type) where
+  v : List α
+  sigma : List Nat
+  iters : Nat
+  stopped : Bool
+
+/-- `value_iteration(v_init, epsilon, max_iter)` (ddp.py 788-805) -/
+def valueIteration (P : Prob α) (β ε : α) (vInit : List α) (maxIter : Nat) : Res α :=
+  let r := opIter (bellman P β) (viTol β ε) maxIter vInit 0
+  ⟨r.1, greedy P β r.1, r.2.1, r.2.2⟩
+
+/-- the `for` loop of `policy_iteration` (ddp.py 836-845). `vlast` is the value of the
+    policy evaluated in the previous pass (returned when the cap is hit). -/
+def piLoop (ev : List Nat → List α) (gr : List α → List Nat) :
+    Nat → List Nat → List α → Nat → Res α
+  | 0, σ, vlast, cnt => ⟨vlast, σ, cnt, false⟩
+  | fuel + 1, σ, _, cnt =>
+    let vσ := ev σ
+    let σ' := gr vσ
+    if σ' = σ then ⟨vσ, σ, cnt + 1, true⟩ else piLoop ev gr fuel σ' vσ (cnt + 1)
+
+/-- `policy_iteration(v_init, max_iter)` -/
+def policyIteration (solve : List (List α) → List α → List α) (P : Prob α) (β : α)
+    (vInit : List α) (maxIter : Nat) : Res α :=
+  piLoop (evalPolicy solve P β) (greedy P β) maxIter (greedy P β vInit) [] 0
+
+/-- `u + c` entrywise -/
+def addConst (u : List α) (c : α) : List α := u.map fun x => x + c
+
+/-- the `for` loop of `modified_policy_iteration` (ddp.py 891-900) -/
+def mpiLoop (P : Prob α) (β : α) (tol : Tol α) (k : Nat) :
+    Nat → List α → List Nat → Nat → Res α
+  | 0, v, σlast, cnt => ⟨v, σlast, cnt, false⟩
+  | fuel + 1, v, _, cnt =>
+    let u := bellman P β v
+    let σ := greedy P β v
+    let diff := List.zipWith (fun a b => a - b) u v
+    if tol.passes (span diff) then
+      ⟨addConst u (midrange diff * β / (1 - β)), σ, cnt + 1, true⟩
+    else
+      mpiLoop P β tol k fuel (opIter (tSigma P β σ) .noTest k u 0).1 σ (cnt + 1)
+
+/-- `modified_policy_iteration(v_init, epsilon, max_iter, k)` -/
+def modifiedPI (P : Prob α) (β ε : α) (vInit : List α) (maxIter k : Nat) : Res α :=
+  mpiLoop P β (mpiTol β ε) k maxIter vInit [] 0
+
+/-- default `v_init` of MPI: `R[R > -inf].min() / (1 - beta)` in every state -/
+def mpiInit (P : Prob α) (β : α) : List α :=
+  let rs := (P.flatMap id).map fun x => x.r
+  P.map fun _ => vmin rs / (1 - β)
+
+/-! ### the formulations -/
+
+/-- the product form read with an explicit `-inf`: `none` = `-inf` reward -/
+def ofProduct (R : List (List (Option α))) (Q : List (List (List α))) : Prob α :=
+  List.zipWith (fun rs qs =>
+    (List.zip (List.range rs.length) (List.zip rs qs)).filterMap fun t =>
+      match t.2.1 with
+      | none => none
+      | some r => some (⟨t.1, r, t.2.2⟩ : Act α)) R Q
+
+/-- order of IEEE doubles on `{-inf} ∪ finite`, `none` = `-inf` -/
+def optLt : Option α → Option α → Bool
+  | none, some _ => true
+  | some a, some b => decide (a < b)
+  | _, none => false
+
+/-- `vals[s,a]` in product form: `-inf + finite = -inf` -/
+def qvalOpt (β : α) (v : List α) (t : Nat × Option α × List α) : Option α :=
+  t.2.1.map fun r => r + β * dot t.2.2 v
+
+/-- first-maximum scan for an `Option`-valued key (`ndarray.argmax(axis=1)` on a row that
+    may contain `-inf`) -/
+def scanMaxOpt {γ : Type} (f : γ → Option α) : γ → List γ → γ
+  | m, [] => m
+  | m, x :: xs => if optLt (f m) (f x) then scanMaxOpt f x xs else scanMaxOpt f m xs
+
+/-- `bellman_operator` in product form, literally: arg-max over all `m` columns, then the
+    value there; `(Tv[s], sigma[s])`, `none` = `-inf` -/
+def bellmanProd (R : List (List (Option α))) (Q : List (List (List α))) (β : α) (v : List α) :
+    List (Option α × Nat) :=
+  List.zipWith (fun rs qs =>
+    match List.zip (List.range rs.length) (List.zip rs qs) with
+    | [] => (none, 0)
+    | t :: ts => let b := scanMaxOpt (qvalOpt β v) t ts; (qvalOpt β v b, b.1)) R Q
+
+/-- insertion of a pair into a list of pairs ordered by action label (stable) -/
+def insertAct (x : Act α) : List (Act α) → List (Act α)
+  | [] => [x]
+  | y :: ys => if x.a < y.a then x :: y :: ys else y :: insertAct x ys
+
+def sortActs (l : List (Act α)) : List (Act α) := l.foldr insertAct []
+
+/-- state-action pairs in arbitrary order -> grouped by state, sorted by action
+    (what the constructor's re-sorting, ddp.py 350-367, produces) -/
+def ofPairs (n : Nat) (sInd aInd : List Nat) (R : List α) (Q : List (List α)) : Prob α :=
+  let pairs := List.zip sInd (List.zip aInd (List.zip R Q))
+  (List.range n).map fun s =>
+    sortActs ((pairs.filter fun p => p.1 == s).map fun p => (⟨p.2.1, p.2.2.1, p.2.2.2⟩ : Act α))
+
+/-- constructor checks that matter here: every state has an action, `0 ≤ β ≤ 1`;
+    the solve methods refuse `β = 1` -/
+def wellFormed (P : Prob α) : Bool := P.all fun acts => !acts.isEmpty
+
+end generic
+
+/-! ### the linear-programming method (ddp.py 915-947, _ddp_linprog_simplex.py)
+
+  `solveTableau` / `pivotCol` repeat `solve_tableau` / `_pivot_col` of
+  optimize/linprog_simplex.py (they are the subject of C04; repeated here so that this model
+  does not depend on another property's file); pivoting and the lexicographic ratio test are
+  the shared `QEModel.Pivot`. -/
+
+section lp
+variable {α : Type} [Zero α] [One α] [Add α] [Sub α] [Mul α] [Div α] [Neg α]
+  [LT α] [LE α] [DecidableLT α] [DecidableLE α] [BEq α]
+
+/-- `PivOptions(fea_tol, tol_piv, tol_ratio_diff)` -/
+structure PivTol (α : Type) where
+  fea : α
+  piv : α
+  diff : α
+
+/-- `_pivot_col` (skip_aux=True): first column `j < stop` with the largest criterion
+    coefficient among those `> fea_tol` (strict `>` update) -/
+def pivotCol (T : M α) (stop : Nat) (feaTol : α) : Option Nat :=
+  ((List.range stop).foldl (fun (st : α × Option Nat) j =>
+    if st.1 < T.get (T.nr - 1) j then (T.get (T.nr - 1) j, some j) else st) (feaTol, none)).2
+
+/-- result of `solve_tableau`: status (0 optimal, 1 iteration cap, 3 unbounded), tableau,
+    basis, number of iterations -/
+structure TabRes (α : Type) where
+  status : Nat
+  T : M α
+  basis : List Nat
+  iters : Nat
+
+/-- the `while num_iter < max_iter` loop of `solve_tableau` with `skip_aux=True` -/
+def solveTableau (tol : PivTol α) : Nat → M α → List Nat → TabRes α
+  | 0, T, b => ⟨1, T, b, 0⟩
+  | fuel + 1, T, b =>
+    let L := T.nr - 1
+    match pivotCol T (T.nc - 1 - L) tol.fea with
+    | none => ⟨0, T, b, 1⟩
+    | some c =>
+      let pr := Pivot.lexMinRatio { T with nr := T.nr - 1 } c (T.nc - L - 1) tol.piv tol.diff
+      if pr.1 then
+        let r := solveTableau tol fuel (Pivot.pivot T c pr.2) (b.set pr.2 c)
+        { r with iters := r.iters + 1 }
+      else ⟨3, T, b, 1⟩
+
+/-- the sorted pair arrays with their state index: column `j` of the tableau is the pair
+    `cols[j] = (s_indices[j], (a_indices[j], R[j], Q[j]))` -/
+def lpCols (P : Prob α) : List (Nat × Act α) :=
+  (List.zip (List.range P.length) P).flatMap fun t => t.2.map fun x => (t.1, x)
+
+def dfltCol : Nat × Act α := (0, dfltAct)
+
+/-- `_initialize_tableau(R, Q, beta, a_indptr, tableau)`: the dual LP in canonical form,
+    `(n+1) × (L+n+1)`.  The loop `for j in range(a_indptr[i], a_indptr[i+1]): tableau[i, j] += 1`
+    is read as "for the pairs `j` of state `i`" (the CSR index is the subject of C09). -/
+def lpTableau (P : Prob α) (β : α) : M α :=
+  let cols := lpCols P
+  let L := cols.length
+  let n := P.length
+  M.tab (n + 1) (L + n + 1) fun i j =>
+    if i < n then
+      if j < L then
+        let base := ((cols.getD j dfltCol).2.q.getD i 0) * (-β)
+        if (cols.getD j dfltCol).1 = i then base + 1 else base
+      else if j < L + n then (if j = L + i then 1 else 0)
+      else 1
+    else
+      if j < L then (cols.getD j dfltCol).2.r else 0
+
+/-- `_find_indices`: the (last) column holding the pair `(i, a)` -/
+def findCol (cols : List (Nat × Act α)) (i a : Nat) : Nat :=
+  (List.range cols.length).foldl
+    (fun cur j => if (cols.getD j dfltCol).1 = i ∧ (cols.getD j dfltCol).2.a = a then j else cur) 0
+
+/-- the tableau after the `n` initial pivots onto the start policy -/
+def lpStart (P : Prob α) (β : α) (basis0 : List Nat) : M α :=
+  (List.range P.length).foldl (fun T i => Pivot.pivot T (basis0.getD i 0) i) (lpTableau P β)
+
+/-- `ddp_linprog_simplex(R, Q, beta, a_indices, a_indptr, sigma, max_iter)`:
+    `n` pivots onto the start policy, then `solve_tableau(max_iter - n, skip_aux=True)`;
+    `v[i] = -tableau[-1, L+i]`, `sigma[i] = a_indices[basis[i]]`, `num_iter + n` -/
+def lpSolve (tol : PivTol α) (P : Prob α) (β : α) (σ0 : List Nat) (maxIter : Nat) : Res α :=
+  let cols := lpCols P
+  let L := cols.length
+  let n := P.length
+  let basis0 := (List.range n).map fun i => findCol cols i (σ0.getD i 0)
+  let r := solveTableau tol (maxIter - n) (lpStart P β basis0) basis0
+  ⟨(List.range n).map fun i => r.T.get n (L + i) * (-(1 : α)),
+   r.basis.map fun j => (cols.getD j dfltCol).2.a, r.iters + n, r.status == 0⟩
+
+end lp
+
+/-! ### exact linear solve for the driver -/
+
+/-- `np.linalg.solve(A, b)` replaced by exact Gauss–Jordan elimination -/
+def solveRat (A : List (List Rat)) (b : List Rat) : List Rat :=
+  match MatAlg.solve (M.ofRows A) (M.ofRows (b.map fun x => [x])) with
+  | some X => (List.range b.length).map fun i => X.get i 0
+  | none => []
+
+/-! ### diagnostics for the correspondence (driver only; no theorem mentions them)
+
+  The code runs in doubles, the model at `Rat`.  A discrete output (σ, num_iter) can
+  legitimately differ when a comparison made by the code is decided by rounding: an exact
+  tie (or a gap below the rounding noise) between two actions, or a stopping statistic that
+  (almost) equals the tolerance.  `margin` is the smallest such gap met along the run
+  (0 = an exact tie), and `bits` bounds the binary size of every iterate so that the harness
+  can recognise the runs on which the double arithmetic is exact. -/
+
+def ratAbs (x : Rat) : Rat := if x < 0 then -x else x
+def ratMin (a b : Rat) : Rat := if b < a then b else a
+
+/-- gap between the best and the second best value of a state (`none`: one action only) -/
+def gapState (β : Rat) (v : List Rat) (acts : List (Act Rat)) : Option Rat :=
+  match acts.map (qval β v) with
+  | [] => none
+  | [_] => none
+  | x :: xs =>
+    let mx := xs.foldl maxA x
+    let cnt := ((x :: xs).filter fun y => y == mx).length
+    if cnt ≥ 2 then some 0
+    else
+      let rest := (x :: xs).filter fun y => y < mx
+      match rest with
+      | [] => some 0
+      | y :: ys => some (mx - ys.foldl maxA y)
+
+def gapAll (P : Prob Rat) (β : Rat) (v : List Rat) : Option Rat :=
+  P.foldl (fun acc acts => match acc, gapState β v acts with
+    | none, g => g
+    | some a, none => some a
+    | some a, some g => some (ratMin a g)) none
+
+def optMin (a : Option Rat) (b : Option Rat) : Option Rat :=
+  match a, b with
+  | none, b => b
+  | a, none => a
+  | some x, some y => some (ratMin x y)
+
+def tolGap (tol : Tol Rat) (d : Rat) : Option Rat :=
+  match tol with
+  | .fin t => some (ratAbs (d - t))
+  | _ => none
+
+/-- number of binary digits needed for numerator and denominator -/
+def ratBits (x : Rat) : Nat := Nat.log2 (x.num.natAbs + 1) + Nat.log2 x.den + 1
+def listBits (v : List Rat) : Nat := v.foldl (fun acc x => max acc (ratBits x)) 0
+/-- is every entry a dyadic rational? -/
+def dyadic (v : List Rat) : Bool := v.all fun x => x.den == 2 ^ Nat.log2 x.den
+
+structure Diag where
+  margin : Option Rat := none
+  bits : Nat := 0
+  dyad : Bool := true
+
+def Diag.see (d : Diag) (v : List Rat) : Diag :=
+  { d with bits := max d.bits (listBits v), dyad := d.dyad && dyadic v }
+def Diag.gap (d : Diag) (g : Option Rat) : Diag := { d with margin := optMin d.margin g }
+
+/-- margins of a VI run: every stopping test, and the final arg-max -/
+def viDiag (P : Prob Rat) (β ε : Rat) : Nat → List Rat → Diag → Diag
+  | 0, v, d => (d.see v).gap (gapAll P β v)
+  | fuel + 1, v, d =>
+    let nv := bellman P β v
+    let dist := supDist nv v
+    let d := (d.see v).gap (tolGap (viTol β ε) dist)
+    if (viTol β ε).passes dist then (d.see nv).gap (gapAll P β nv)
+    else viDiag P β ε fuel nv d
+
+/-- margins of a PI run: every arg-max taken -/
+def piDiag (P : Prob Rat) (β : Rat) : Nat → List Nat → Diag → Diag
+  | 0, _, d => d
+  | fuel + 1, σ, d =>
+    let vσ := evalPolicy solveRat P β σ
+    let σ' := greedy P β vσ
+    let d := (d.see vσ).gap (gapAll P β vσ)
+    if σ' = σ then d else piDiag P β fuel σ' d
+
+/-- margins of an MPI run: every arg-max and every span test -/
+def mpiDiag (P : Prob Rat) (β ε : Rat) (k : Nat) : Nat → List Rat → Diag → Diag
+  | 0, v, d => d.see v
+  | fuel + 1, v, d =>
+    let u := bellman P β v
+    let σ := greedy P β v
+    let diff := List.zipWith (fun a b => a - b) u v
+    let d := ((d.see v).see u).gap (gapAll P β v) |>.gap (tolGap (mpiTol β ε) (span diff))
+    if (mpiTol β ε).passes (span diff) then
+      d.see (addConst u (midrange diff * β / (1 - β)))
+    else mpiDiag P β ε k fuel (opIter (tSigma P β σ) .noTest k u 0).1 d
+
+/-! ### exact specification checker (run on the *code's* outputs) -/
+
+/-- exact optimal value by policy iteration at `Rat` (cap: number of policies + 1) -/
+def vStarRat (P : Prob Rat) (β : Rat) : Res Rat :=
+  let cap := P.foldl (fun acc acts => acc * acts.length) 1 + 1
+  policyIteration solveRat P β (rmax P) cap
+
+def feasible (P : Prob Rat) (σ : List Nat) : Bool :=
+  σ.length == P.length &&
+    (List.zip P σ).all fun t => t.1.any fun x => x.a == t.2
+
+local instance : Zero Float := ⟨0.0⟩
+local instance : One Float := ⟨1.0⟩
+
+/-- exact for dyadic rationals with small numerator (all wire data), correctly rounded otherwise -/
+def ratToFloat (q : Rat) : Float := Float.ofInt q.num / Float.ofNat q.den
+
+/-- the code's default `PivOptions` (linprog_simplex.py 137-139) as doubles … -/
+def floatPivTol : PivTol Float := ⟨1e-6, 1e-7, 1e-13⟩
+/-- … and as the exact rationals these doubles denote -/
+def ratPivTol : PivTol Rat :=
+  ⟨(ratOfBits (1e-6 : Float).toBits).getD 0, (ratOfBits (1e-7 : Float).toBits).getD 0,
+   (ratOfBits (1e-13 : Float).toBits).getD 0⟩
+
+/-! ### line protocol -/
+
+def parseOptRat? (s : String) : Option (Option Rat) :=
+  if s = "ninf" then some none else (parseRat? s).map some
+
+/-- problem from the tokens: `form=prod n= m= R=<n×m, ninf allowed> Q=<(n·m)×n>` or
+    `form=sa n= s= a= R=<L> Q=<L×n>` -/
+def parseProb (toks : List String) : Option (Prob Rat) :=
+  match kv toks "form", kvNat toks "n" with
+  | some "prod", some n =>
+    match kvNat toks "m", (kv toks "R").bind (parseMat? parseOptRat?), kvRatMat toks "Q" with
+    | some m, some R, some Q =>
+      if R.length = n ∧ R.all (fun r => r.length == m) ∧ Q.length = n * m ∧ Q.all (fun r => r.length == n) then
+        let Q3 := (List.range n).map fun s => (List.range m).map fun a => Q.getD (s * m + a) []
+        some (ofProduct R Q3)
+      else none
+    | _, _, _ => none
+  | some "sa", some n =>
+    match kvNats toks "s", kvNats toks "a", kvRats toks "R", kvRatMat toks "Q" with
+    | some s, some a, some R, some Q =>
+      if s.length = R.length ∧ a.length = R.length ∧ Q.length = R.length ∧ Q.all (fun r => r.length == n)
+          ∧ s.all (fun i => decide (i < n)) then
+        some (ofPairs n s a R Q)
+      else none
+    | _, _, _, _ => none
+  | _, _ => none
+
+def showOptRat (d : Option Rat) : String :=
+  match d with
+  | none => "none"
+  | some x => showRat x
+
+/-- printing only: a rational with a huge representation is shown rounded down to a multiple of
+    `2^-100` (the harness compares such values inside an envelope of 1e-9 anyway) -/
+def showRatShort (x : Rat) : String :=
+  if ratBits x ≤ 256 then showRat x
+  else showRat (((x * ((2 ^ 100 : Nat) : Rat)).floor : Rat) / ((2 ^ 100 : Nat) : Rat))
+
+def showRes (r : Res Rat) (d : Diag) : String :=
+  "sigma=" ++ showList toString r.sigma ++ " iters=" ++ toString r.iters ++
+  " stopped=" ++ showBool r.stopped ++ " v=" ++ showList showRatShort r.v ++
+  " margin=" ++ showOptRat (d.margin.map fun m => if ratBits m ≤ 256 then m else
+      (((m * ((2 ^ 100 : Nat) : Rat)).floor : Rat) / ((2 ^ 100 : Nat) : Rat))) ++ " bits=" ++ toString d.bits ++ " dyadic=" ++ showBool d.dyad
+
+def handle (toks : List String) : String :=
+  match toks with
+  | op :: r =>
+    match parseProb r, kvRat r "beta" with
+    | some P, some β =>
+      if !wellFormed P then "ERR:ValueError"
+      else if β < 0 ∨ 1 < β then "ERR:ValueError"
+      else if β = 1 then "ERR:NotImplementedError"
+      else
+        let n := P.length
+        let vinit (dflt : List Rat) : Option (List Rat) :=
+          match kv r "vinit" with
+          | none => none
+          | some "none" => some dflt
+          | some s => match parseList? parseRat? s with
+            | some v => if v.length = n then some v else none
+            | none => none
+        match op with
+        | "vi" =>
+          match kvRat r "eps", kvNat r "maxiter", vinit (rmax P) with
+          | some ε, some mi, some v0 =>
+            showRes (valueIteration P β ε v0 mi) (viDiag P β ε mi v0 {})
+          | _, _, _ => "bad-op"
+        | "pi" =>
+          match kvNat r "maxiter", vinit (rmax P) with
+          | some mi, some v0 =>
+            let d0 : Diag := ({} : Diag).gap (gapAll P β v0)
+            showRes (policyIteration solveRat P β v0 mi) (piDiag P β mi (greedy P β v0) d0)
+          | _, _ => "bad-op"
+        | "mpi" =>
+          match kvRat r "eps", kvNat r "maxiter", kvNat r "k", vinit (mpiInit P β) with
+          | some ε, some mi, some k, some v0 =>
+            showRes (modifiedPI P β ε v0 mi k) (mpiDiag P β ε k mi v0 {})
+          | _, _, _, _ => "bad-op"
+        | "lp" =>
+          match kvNat r "maxiter", vinit (rmax P) with
+          | some mi, some v0 =>
+            -- exact run, and the same program on doubles (operation order of the Numba kernels)
+            let σ0 := greedy P β v0
+            let rr := lpSolve ratPivTol P β σ0 mi
+            let Pf : Prob Float := P.map fun acts => acts.map fun x => ⟨x.a, ratToFloat x.r, x.q.map ratToFloat⟩
+            let rf := lpSolve floatPivTol Pf (ratToFloat β) σ0 mi
+            "sigma=" ++ showList toString rf.sigma ++ " iters=" ++ toString rf.iters ++
+              " ok=" ++ showBool rf.stopped ++ " v=" ++ showList showFloatBits rf.v ++
+              " rsigma=" ++ showList toString rr.sigma ++ " riters=" ++ toString rr.iters ++
+              " rok=" ++ showBool rr.stopped ++ " rv=" ++ showList showRatShort rr.v ++
+              -- the certificate of `lp_certified`, evaluated exactly on the exact run
+              " rcert=" ++ showBool (feasible P rr.sigma && tSigma P β rr.sigma rr.v == rr.v)
+          | _, _ => "bad-op"
+        | "bellman" =>
+          match kvRats r "v" with
+          | some v => if v.length = n then
+              "Tv=" ++ showList showRat (bellman P β v) ++ " sigma=" ++ showList toString (greedy P β v)
+                ++ " margin=" ++ showOptRat (gapAll P β v)
+            else "bad-op"
+          | none => "bad-op"
+        | "bellmanprod" =>
+          -- the literal product-form scan with -inf (only for form=prod)
+          match kv r "form", kvNat r "n", kvNat r "m", (kv r "R").bind (parseMat? parseOptRat?),
+                kvRatMat r "Q", kvRats r "v" with
+          | some "prod", some n', some m, some R, some Q, some v =>
+            if v.length = n' then
+              let Q3 := (List.range n').map fun s => (List.range m).map fun a => Q.getD (s * m + a) []
+              let out := bellmanProd R Q3 β v
+              "Tv=" ++ showList (fun t => showOptRat t.1) out ++ " sigma=" ++ showList (fun t => toString t.2) out
+            else "bad-op"
+          | _, _, _, _, _, _ => "bad-op"
+        | "evalpol" =>
+          match kvNats r "sigma" with
+          | some σ => if feasible P σ then "v=" ++ showList showRat (evalPolicy solveRat P β σ) else "ERR:infeasible"
+          | none => "bad-op"
+        | "vstar" =>
+          let s := vStarRat P β
+          "v=" ++ showList showRat s.v ++ " stopped=" ++ showBool s.stopped
+        | "spec" =>
+          -- exact check of a returned (v, sigma): feasibility, ‖v − v*‖, ‖v_sigma − v*‖
+          match kvRats r "v", kvNats r "sigma" with
+          | some v, some σ =>
+            if v.length ≠ n then "bad-op"
+            else if !feasible P σ then "feasible=0"
+            else
+              let s := vStarRat P β
+              let vσ := evalPolicy solveRat P β σ
+              "feasible=1 stopped=" ++ showBool s.stopped ++ " dv=" ++ showRat (supDist v s.v) ++
+                " dsigma=" ++ showRat (supDist vσ s.v)
+          | _, _ => "bad-op"
+        | _ => "bad-op"
+    | _, _ => "bad-op"
+  | _ => "bad-op"
 
 end QE.C01
